@@ -190,6 +190,10 @@ def run(rec, cfg):
 
     X.MAX_BITS, X.MAX_EXP, X.MAX_FACT = 70000, 70000, 3000   # exact integers of up to ~20000 digits in this check
     rng = cfg.rng("c05")
+    from ..workloads import interrupted as _INT
+
+    if cfg.shard == 6 % cfg.nshards:
+        _INT.evaluate_cases(rec, "C05")
     rules = MR.rule_instances()
     corp = [s for s in WT.corpus()]
     n = cfg.scale(6000, 150000)
@@ -355,6 +359,11 @@ def run(rec, cfg):
 
 
 def replay(rec, cfg, w):
+    if "failpoint" in w:
+        from ..workloads import interrupted as _INT
+
+        _INT.evaluate_cases(rec, "C05")      # deterministic: the whole family of cases is run again
+        return
     ME.attach_evaluate("C05")
     from ..oracles import exact as X
 
